@@ -206,6 +206,36 @@ def r2(R, repo):
           'FrozenDict.__hash__ must combine hash((key, value)) of every item with a commutative operator (insertion order must not matter)')
 
 
+def check_unfreeze(R, repo):
+  """unfreeze() builds fresh containers on every branch (shared by C15.R3 and C01.R1)."""
+  mod = repo.mod(FD)
+  un = mod.func('unfreeze')
+  cu = cfg_of(un)
+  p = astu.params(un.node)[0]
+  fd_t = [n for n in cu.nodes if n.kind == 'if' and astu.isinstance_test(n.ast, p) and 'FrozenDict' in astu.isinstance_test(n.ast, p)[1]]
+  d_t = [n for n in cu.nodes if n.kind == 'if' and astu.isinstance_test(n.ast, p) and 'dict' in astu.isinstance_test(n.ast, p)[1]]
+  R.require(len(fd_t) == 1 and len(d_t) == 1, 'unfreeze: FrozenDict / dict dispatch not found')
+  rets = [n for n in cu.nodes if isinstance(n.stmt, ast.Return)]
+  ok = True
+  msg = ''
+  for r in rets:
+    v = r.stmt.value
+    if isinstance(v, ast.Name) and v.id == p:
+      if not (cu.edge_guarded(r, fd_t[0], 'F') and cu.edge_guarded(r, d_t[0], 'F')):
+        ok, msg = False, 'returns its argument unchanged although it may be a dict/FrozenDict'
+    elif cu.edge_guarded(r, fd_t[0], 'T'):
+      if not (isinstance(v, ast.Call) and any(_is_copy_call(v, a) for a in v.args)):
+        ok, msg = False, 'FrozenDict branch does not copy the private dict: `%s`' % astu.short(v)
+    elif cu.edge_guarded(r, d_t[0], 'T'):
+      d = types.single_def(un.node, v.id) if isinstance(v, ast.Name) else v
+      if not isinstance(d, (ast.Dict, ast.DictComp)):
+        ok, msg = False, 'dict branch must build a fresh dict'
+      rec = [x for x in astu.func_calls(un) if astu.call_name(x) == 'unfreeze']
+      if not rec:
+        ok, msg = False, 'dict branch must unfreeze nested values recursively'
+  R.check(ok, key_of(un, 'fresh containers on every branch'), un, 'unfreeze: ' + msg)
+
+
 @rule('C15.R3', 'K7', 9, 'construction and every copying API build fresh containers')
 def r3(R, repo):
   mod = repo.mod(FD)
@@ -239,32 +269,7 @@ def r3(R, repo):
   ok = ok and len(rets) == 1 and len(dt) == 1 and cc.edge_guarded(rets[0], dt[0], 'T' if astu.src(dt[0].ast).startswith('not') else 'F')
   R.check(ok, key_of(pf, 'rebuilds every nested dict; returns only non-dicts as is'), pf,
           '_prepare_freeze must rebuild every nested dict recursively and may return its argument unchanged only when it is not a dict')
-  # unfreeze
-  un = mod.func('unfreeze')
-  cu = cfg_of(un)
-  p = astu.params(un.node)[0]
-  fd_t = [n for n in cu.nodes if n.kind == 'if' and astu.isinstance_test(n.ast, p) and 'FrozenDict' in astu.isinstance_test(n.ast, p)[1]]
-  d_t = [n for n in cu.nodes if n.kind == 'if' and astu.isinstance_test(n.ast, p) and 'dict' in astu.isinstance_test(n.ast, p)[1]]
-  R.require(len(fd_t) == 1 and len(d_t) == 1, 'unfreeze: FrozenDict / dict dispatch not found')
-  rets = [n for n in cu.nodes if isinstance(n.stmt, ast.Return)]
-  ok = True
-  msg = ''
-  for r in rets:
-    v = r.stmt.value
-    if isinstance(v, ast.Name) and v.id == p:
-      if not (cu.edge_guarded(r, fd_t[0], 'F') and cu.edge_guarded(r, d_t[0], 'F')):
-        ok, msg = False, 'returns its argument unchanged although it may be a dict/FrozenDict'
-    elif cu.edge_guarded(r, fd_t[0], 'T'):
-      if not (isinstance(v, ast.Call) and any(_is_copy_call(v, a) for a in v.args)):
-        ok, msg = False, 'FrozenDict branch does not copy the private dict: `%s`' % astu.short(v)
-    elif cu.edge_guarded(r, d_t[0], 'T'):
-      d = types.single_def(un.node, v.id) if isinstance(v, ast.Name) else v
-      if not isinstance(d, (ast.Dict, ast.DictComp)):
-        ok, msg = False, 'dict branch must build a fresh dict'
-      rec = [x for x in astu.func_calls(un) if astu.call_name(x) == 'unfreeze']
-      if not rec:
-        ok, msg = False, 'dict branch must unfreeze nested values recursively'
-  R.check(ok, key_of(un, 'fresh containers on every branch'), un, 'unfreeze: ' + msg)
+  check_unfreeze(R, repo)
   # module-level copy / pop: dict branch works on a deep copy
   for name in ('copy', 'pop'):
     g = mod.func(name)
